@@ -11,8 +11,8 @@ from mcx.engine import Layer, run_check
 from checks.entrypoints import FTABLE_EPS, JOIN_EPS, has_score, run_ep
 
 MAXV = 6
-L_MENU = [None, [], ['p'], ['q', 'p'], ['ls'], ['lid'], ['p', 'p'], ['lid', 'ls', 'q'], ['ls', 'p']]
-R_MENU = [None, [], ['z'], ['rs', 'z'], ['rid', 'z', 'z']]
+L_MENU = [None, [], ['p'], ['q', 'p'], ['ls'], ['p_lid_q'], ['p', 'p'], ['p_lid_q', 'ls', 'q'], ['ls', 'p']]
+R_MENU = [None, [], ['z'], ['rs', 'z'], ['z_rid', 'z', 'z']]
 PREFIXES = [('l_', 'r_'), ('L.', 'R.'), ('', 'r_')]
 
 
@@ -21,14 +21,14 @@ def tables(lperm, rperm, sd):
     rj = ['a b', '', None, 'c b', 'a']
     n, m = len(lj), len(rj)
     lcols = {
-        'lid': pd.Series([10 + 3 * i for i in range(n)] if sd % 2 == 0 else ['k%d' % i for i in range(n)],
+        'p_lid_q': pd.Series([10 + 3 * i for i in range(n)] if sd % 2 == 0 else ['k%d' % i for i in range(n)],
                          dtype=None if sd % 2 == 0 else object),
         'ls': pd.Series(lj, dtype=object),
         'p': pd.Series(['p0', None, 'p2', 'p3', 'p4', None], dtype=object),
         'q': pd.Series([0.5, float('nan'), 2.0, 3.25, float('nan'), 5.0], dtype='float64'),
     }
     rcols = {
-        'rid': pd.Series(['r%d' % j for j in range(m)], dtype=object),
+        'z_rid': pd.Series(['r%d' % j for j in range(m)], dtype=object),
         'rs': pd.Series(rj, dtype=object),
         'w': pd.Series(['b a', 'c', '', None, 'a b'], dtype=object),
         'z': pd.Series(pd.to_datetime(['2020-01-01', None, '2021-05-05', '2022-02-02', None])) if sd % 3 == 0
@@ -62,8 +62,8 @@ def w_proj(job):
     outs = {}
     for (lperm, rperm) in job['perms']:
         L, R = tables(lperm, rperm, sd)
-        lsrc = {cell(r['lid']): r for r in L.to_dict('records')}
-        rsrc = {cell(r['rid']): r for r in R.to_dict('records')}
+        lsrc = {cell(r['p_lid_q']): r for r in L.to_dict('records')}
+        rsrc = {cell(r['z_rid']): r for r in R.to_dict('records')}
         for ep in job['eps']:
           for (lattr, rattr) in job.get('join_attrs', [('ls', 'rs')]):
             for lo in job.get('l_menu', L_MENU):
@@ -72,10 +72,10 @@ def w_proj(job):
                         for score in job['scores']:
                             sc = score and has_score(ep)
                             out = run_ep(ep, L, R, job.get('n_jobs', 1), ae=True, am=True, lo=lo, ro=ro,
-                                         lp=lp, rp=rp, score=sc, lkey='lid', rkey='rid', lattr=lattr, rattr=rattr)
+                                         lp=lp, rp=rp, score=sc, lkey='p_lid_q', rkey='z_rid', lattr=lattr, rattr=rattr)
                             calls += 1
-                            la, ra = dedup(lo, 'lid') or [], dedup(ro, 'rid') or []
-                            header = ['_id', lp + 'lid', rp + 'rid'] + [lp + a for a in la] + \
+                            la, ra = dedup(lo, 'p_lid_q') or [], dedup(ro, 'z_rid') or []
+                            header = ['_id', lp + 'p_lid_q', rp + 'z_rid'] + [lp + a for a in la] + \
                                      [rp + a for a in ra] + (['_sim_score'] if sc else [])
                             probs = []
                             if list(out.columns) != header:
@@ -117,8 +117,8 @@ def layers(tier):
     quick = tier == 'quick'
     sd = seed()
     eps = JOIN_EPS + FTABLE_EPS
-    lperms = list(itertools.permutations(['lid', 'ls', 'p', 'q']))
-    rperms = list(itertools.permutations(['rid', 'rs', 'z']))
+    lperms = list(itertools.permutations(['p_lid_q', 'ls', 'p', 'q']))
+    rperms = list(itertools.permutations(['z_rid', 'rs', 'z']))
     allperms = [(list(a), list(b)) for a in lperms for b in rperms]
     jobs = []
     for k in range(0, len(allperms), 2):
